@@ -176,7 +176,6 @@ def _value_mc_fast_numba(
     np.random.seed(seed)
     mu = interest_rate - dividend_yield
     v2 = volatility**2
-    dt = (t - t0) / n
     r = interest_rate
     num_paths = int(num_paths)
 
@@ -195,6 +194,8 @@ def _value_mc_fast_numba(
         t0 = 0.0
         # the number of observations is scaled and floored at 1
         n = int(n * t / tau + 0.5) + 1
+
+    dt = (t - t0) / n
 
     # evolve stock price to start of averaging period
     # g = np.random.normal(0.0, 1.0, size=(num_paths))
@@ -272,7 +273,6 @@ def _value_mc_fast_cv_numba(
     np.random.seed(seed)
     mu = interest_rate - dividend_yield
     v2 = volatility**2
-    dt = (t - t0) / n
     r = interest_rate
 
     multiplier = 1.0
@@ -290,6 +290,8 @@ def _value_mc_fast_cv_numba(
         t0 = 0.0
         # the number of observations is scaled and floored at 1
         n = int(n * t / tau + 0.5) + 1
+
+    dt = (t - t0) / n
 
     # evolve stock price to start of averaging period
     g = np.random.normal(0.0, 1.0, size=(num_paths))
